@@ -22,6 +22,7 @@ import (
 	"hash/crc32"
 	"io"
 	"strings"
+	"unicode/utf8"
 )
 
 type cdRec struct {
@@ -231,9 +232,9 @@ func (m *Mod) wantCD() []cdRec {
 		if strings.HasSuffix(e.Name, "/") {
 			c.Method, c.Flags = 0, 0
 		}
-		for i := 0; i < len(e.Name); i++ {
+		for i := 0; i < len(e.Name) && utf8.ValidString(e.Name); i++ {
 			if ch := e.Name[i]; ch < 0x20 || ch > 0x7d || ch == 0x5c {
-				c.Flags |= 0x800 // archive/zip marks names outside the CP-437/ASCII-safe range as UTF-8
+				c.Flags |= 0x800 // archive/zip marks VALID UTF-8 names outside the CP-437/ASCII-safe range as UTF-8
 				break
 			}
 		}
